@@ -519,6 +519,14 @@ def plugin_generated_fields(chk):
             g.cleanup()
 
 
+def mm_class(fs, nums=None):
+    """a message class with the int32 fields `fs`; `nums` are their field numbers (declaration order and number order
+    are independent in .proto files: protoc keeps the declaration order)"""
+    nums = nums or list(range(1, len(fs) + 1))
+    return dataclasses.make_dataclass("MM", [(f, int, betterproto.int32_field(n)) for f, n in zip(fs, nums)],
+                                      bases=(betterproto.Message,))
+
+
 def multi_field_messages(chk, fields):
     """several generated fields in one message: every value must survive to_dict -> from_dict"""
     rng = chk.rng
@@ -526,13 +534,13 @@ def multi_field_messages(chk, fields):
     for _ in range(100 if chk.tier == "quick" else 1000):
         k = rng.randint(2, 8)
         fs = rng.sample(good, min(k, len(good)))
-        M = dataclasses.make_dataclass("MM", [(f, int, betterproto.int32_field(i + 1)) for i, f in enumerate(fs)],
-                                       bases=(betterproto.Message,))
+        nums = rng.sample([1, 2, 3, 4, 5, 7, 9, 15, 16, 17, 100, 2047, 2048, 19000], len(fs))     # not in declaration order
+        M = mm_class(fs, nums)
         m = M(**{f: i + 1 for i, f in enumerate(fs)})
         for cname, cas in (("camel", betterproto.Casing.CAMEL), ("snake", betterproto.Casing.SNAKE)):
             back = call(lambda: M().from_dict(m.to_dict(casing=cas)))
             if isinstance(back, Exception) or back != m:
-                chk.fail("multi-field-roundtrip:" + cname, {"fields": fs}, repr(back))
+                chk.fail("multi-field-roundtrip:" + cname, {"fields": fs, "numbers": nums}, repr(back))
         chk.count("multi_field_messages")
 
 
@@ -558,13 +566,13 @@ def near_name_siblings(chk, fields):
         if len(keep) < 2:
             continue
         fs = keep[:6]
-        M = dataclasses.make_dataclass("MM", [(f, int, betterproto.int32_field(i + 1)) for i, f in enumerate(fs)],
-                                       bases=(betterproto.Message,))
+        nums = chk.rng.sample([1, 2, 3, 4, 5, 7, 9, 15, 16, 17, 100, 2047, 2048, 19000], len(fs))
+        M = mm_class(fs, nums)
         m = M(**{f: i + 1 for i, f in enumerate(fs)})
         for cname, cas in (("camel", betterproto.Casing.CAMEL), ("snake", betterproto.Casing.SNAKE)):
             back = call(lambda: M().from_dict(m.to_dict(casing=cas)))
             if isinstance(back, Exception) or back != m:
-                chk.fail("multi-field-roundtrip:" + cname, {"fields": fs, "near_names": True}, repr(back))
+                chk.fail("multi-field-roundtrip:" + cname, {"fields": fs, "numbers": nums, "near_names": True}, repr(back))
         chk.count("near_name_sibling_messages")
 
 
@@ -606,8 +614,7 @@ def still_fails(kind, inp):
         return bool(check_member(inp["name"], inp["enum"]))
     if kind.startswith("multi-field-roundtrip"):
         fs = inp["fields"]
-        M = dataclasses.make_dataclass("MM", [(f, int, betterproto.int32_field(i + 1)) for i, f in enumerate(fs)],
-                                       bases=(betterproto.Message,))
+        M = mm_class(fs, inp.get("numbers"))
         m = M(**{f: i + 1 for i, f in enumerate(fs)})
         cas = betterproto.Casing.CAMEL if kind.endswith("camel") else betterproto.Casing.SNAKE
         back = call(lambda: M().from_dict(m.to_dict(casing=cas)))
